@@ -430,6 +430,41 @@ ByteMut(op, b) ==
     [] op = "fliplast0"  -> Flip(b, Len(b), 1)
     [] op = "flipmid7"   -> Flip(b, (Len(b) \div 2) + 1, 128)
 
+\* ======================================================================= large inputs as descriptors
+\* A descriptor stands for a long list (64 KiB .. 1 MiB in the traces) without carrying it:
+\*   kind "repeat"   : a list of cnt copies of the byte string elem (an element of the type, an empty string, an empty
+\*                     list, a malformed item, junk) -- honest size field;
+\*   kind "announce" : the size field of cnt copies, only `present` of them there.
+\* j = 0: the list is the value; j > 0: it is field j of a struct whose other fields are pre / post (encodings of samples).
+\* The driver expands the descriptor (Expand is the definition), the monitors judge the outcome by the descriptor
+\* (BigAccept, BigGeneric); scope "big" checks that rule against the parser for every descriptor with cnt <= 3.
+RECURSIVE Rep(_, _)
+Rep(q, n) == IF n = 0 THEN <<>> ELSE q \o Rep(q, n - 1)
+Expand(d) == LET size == Len(d.elem) * d.cnt
+                 payload == IF d.kind = "repeat" THEN Rep(d.elem, d.cnt) ELSE Rep(d.elem, d.present)
+                 big == EncLen(size, 192) \o payload
+             IN IF d.j = 0 THEN big ELSE EncLen(Len(d.pre) + Len(big) + Len(d.post), 192) \o d.pre \o big \o d.post
+ElemSchema(d) == IF d.j = 0 THEN Schema(d.ty).e ELSE Schema(d.ty).f[d.j].e
+ElemOk(d, strict) == LET q == Parse(d.elem) IN q.ok /\ Match(ElemSchema(d), q.it, strict)
+Whole(d) == d.kind = "repeat" \/ d.present = d.cnt
+BigAccept(d, strict) == Whole(d) /\ (d.cnt = 0 \/ ElemOk(d, strict))        \* as a value of the type
+BigGeneric(d) == Whole(d) /\ (d.cnt = 0 \/ Canonical(d.elem))               \* as an encoding at all
+
+ListTypes == { t \in Types : Schema(t).k = "list" }
+EmbedTypes == { t \in Types : Schema(t).k = "struct" /\ \E j \in DOMAIN Schema(t).f : Schema(t).f[j].k = "list" }
+FirstList(s) == CHOOSE j \in DOMAIN s.f : s.f[j].k = "list" /\ \A i \in 1..(j - 1) : s.f[i].k # "list"
+BigElems(es) == { Enc(Sample(es, 1)), <<128>>, <<192>>, <<129, 0>>, <<255>> }
+BigShapes ==
+   UNION { { [ty |-> t, j |-> 0, pre |-> <<>>, post |-> <<>>, elem |-> e] : e \in BigElems(Schema(t).e) } : t \in ListTypes } \cup
+   UNION { LET s == Schema(t) j == FirstList(s) IN
+           { [ty |-> t, j |-> j, pre |-> EncSeq([i \in 1..(j - 1) |-> Sample(s.f[i], 1)]),
+              post |-> EncSeq([i \in 1..(Len(s.f) - j) |-> Sample(s.f[j + i], 1)]), elem |-> e] : e \in BigElems(s.f[j].e) }
+         : t \in EmbedTypes }
+BigKinds(sh) == ({"repeat"} \X (0..3) \X {0}) \cup { q \in {"announce"} \X (1..3) \X (0..2) : q[3] < q[2] /\ sh.j = 0 }
+BigDescs == UNION { { [ty |-> sh.ty, j |-> sh.j, pre |-> sh.pre, post |-> sh.post, elem |-> sh.elem, kind |-> kc[1], cnt |-> kc[2], present |-> kc[3]]
+                      : kc \in BigKinds(sh) } : sh \in BigShapes }
+InitBig == { [ty |-> d.ty, sid |-> 0, b |-> Expand(d), mut |-> <<>>, op |-> "none", d |-> d] : d \in BigDescs }
+
 \* ======================================================================= scopes
 SeedLog == ndJsonDeserialize("seeds.ndjson")     \* real encodings produced by the driver: [ty, b, nodes, id]
 SeedBase == 1000
@@ -487,6 +522,7 @@ InitSet == CASE Scope = "items" -> InitItems
              [] Scope = "typed" -> InitTyped
              [] Scope = "seeds" -> InitSeeds
              [] Scope = "all"   -> InitTyped \cup InitSeeds
+             [] Scope = "big"   -> InitBig
 Init == c \in InitSet
 
 Label(op, i) == op \o "@" \o ToString(i)
@@ -509,6 +545,14 @@ PairMutants(cc, it, ps) ==
                                q[1] < q[2] /\ x.e[q[1]].k = "s" /\ x.e[q[2]].k = "s"
                                /\ (x.e[q[1]].v # PairVals[q[3]] \/ x.e[q[2]].v # PairVals[q[4]]) } }
          : i \in DOMAIN ps }
+\* An inner list replaced by the empty list / the empty string (what a nil pointer is encoded as): for EVERY inner list
+\* node.  Whether a decoder takes that for "no value" is a per-field decision (struct tag rlp:"nil") that must show here.
+NilMutants(cc, it, ps) ==
+   UNION { LET x == At(it, ps[i]) IN
+           IF i = 1 \/ x.k # "l" THEN {}
+           ELSE {MutCase(cc, Enc(Subst(it, ps[i], S(<<>>))), "nilstr", i)}
+                \cup (IF x.e = <<>> THEN {} ELSE {MutCase(cc, Enc(Subst(it, ps[i], Lst(<<>>))), "nillist", i)})
+         : i \in DOMAIN ps }
 NodeMutants(cc) ==
    LET p == Parse(cc.b) IN
    IF ~p.ok THEN {}
@@ -517,6 +561,7 @@ NodeMutants(cc) ==
             ms == { m \in NodesOf(cc, Len(ps)) \X NodeOps : Applicable(m[2], At(it, ps[m[1]])) }
         IN { MutCase(cc, Enc(Subst(it, ps[m[1]], NewNode(m[2], At(it, ps[m[1]])))), m[2], m[1]) : m \in ms }
            \cup (IF cc.mut = <<>> /\ (cc.sid < SeedBase \/ SeedLog[cc.sid - SeedBase].k < PairK) THEN PairMutants(cc, it, ps) ELSE {})
+           \cup (IF cc.mut = <<>> THEN NilMutants(cc, it, ps) ELSE {})
 ByteMutants(cc) == { MutCase(cc, ByteMut(op, cc.b), op, 0) : op \in { o \in ByteOps : ByteApplicable(o, cc.b) } }
 Next == \/ /\ Scope \in {"typed", "seeds", "all"}
            /\ Len(c.mut) < MaxMut
@@ -539,7 +584,7 @@ Typed == c.ty # "generic"
 \* the expensive part); a failing conjunct prints its name.
 Named(n, x) == x \/ (PrintT(<<"FAILED", n, c.ty, c.mut>>) /\ FALSE)
 TypedSelfCheck ==
-   Typed => LET s == SchemaOf(c)
+   (Typed /\ Scope # "big") => LET s == SchemaOf(c)
                 p == Parse(c.b)
                 strict == p.ok /\ Match(s, p.it, TRUE)      \* TypedCanonical
                 len == p.ok /\ Match(s, p.it, FALSE)        \* Accepts
@@ -563,6 +608,14 @@ DesignCex == Typed => LET s == SchemaOf(c) p == Parse(c.b) IN
                 (p.ok /\ Match(s, p.it, FALSE) /\ Defects(s, p.it) # {})
                 => PrintT("@@J " \o ToJson([kind |-> "CEX", clause |-> "AcceptImpliesCanonical", ty |-> c.ty, sid |-> c.sid,
                                             b |-> c.b, mut |-> c.mut, disc |-> Defects(s, p.it)]))
+\* the verdict-by-descriptor rule against the parser
+BigSound == (Scope = "big") =>
+   LET s == Schema(c.ty) p == Parse(c.b) IN
+   /\ Named("BigStrict", (p.ok /\ Match(s, p.it, TRUE)) <=> BigAccept(c.d, TRUE))
+   /\ Named("BigDesign", (p.ok /\ Match(s, p.it, FALSE)) <=> BigAccept(c.d, FALSE))
+   /\ Named("BigGeneric", p.ok <=> BigGeneric(c.d))
 \* ======================================================================= generation (G)
-Emit == (GenMode = "print") => PrintT("@@J " \o ToJson([kind |-> "B", ty |-> c.ty, sid |-> c.sid, b |-> c.b, mut |-> c.mut]))
+Emit == (GenMode = "print") =>
+   IF Scope = "big" THEN PrintT("@@J " \o ToJson([kind |-> "D", d |-> c.d]))
+   ELSE PrintT("@@J " \o ToJson([kind |-> "B", ty |-> c.ty, sid |-> c.sid, b |-> c.b, mut |-> c.mut]))
 =============================================================================
